@@ -222,7 +222,7 @@ def build(case, parallel=(), perm=None):
             st = FStep(params)
             topo = {'tok': up + ('tok',), 'acc': up + ('acc',),
                     'probe': up + ('verif_probe',)}
-            if spec.get('kill') or spec.get('gen'):
+            if spec.get('kill') or spec.get('gen') or spec.get('watch'):
                 topo['world'] = up + ('world',)
         else:
             st = KStep(params)
@@ -861,7 +861,7 @@ def emit_flags(case):
             flags[('out', sp['name'] + '_n')] = True
             flags[('out', sp['name'] + '_sum')] = True
     flags[('verif_probe',)] = False
-    flags['world-alive'] = any(sp.get('kill') or sp.get('gen') for sp in case.get('steps', []))
+    flags['world-alive'] = any(sp.get('kill') or sp.get('gen') or sp.get('watch') for sp in case.get('steps', []))
     ss = case.get('store_schema') or {}
 
     def walk(d, path):
@@ -1066,7 +1066,7 @@ def expected_view(sp, snap, is_proc):
         names += [g['name'] for g in (sp.get('gen') or {}).get('steps', [])]
         tok = snap.get('tok') or {}
         want['tok'] = {n: tok.get(n) for n in names}
-        if sp.get('kill') or sp.get('gen'):
+        if sp.get('kill') or sp.get('gen') or sp.get('watch'):
             world = snap.get('world') or {}
             want['world'] = {c: {'alive': (world[c] or {}).get('alive')}
                              for c in world}
